@@ -23,7 +23,7 @@ REQUIRED = [
     "judged:closest:on-curve", "judged:closest:near", "closest:multimodal-judged", "closest:far-weak",
     "judged:edge-points", "judged:edge-length-exact", "judged:edge-length-approx", "edge:against-curve-direction",
     "judged:edge-after-vertex-move", "pair:start-parameter-exactly-zero-inside-nonzero-bounds",
-    "edge:along-curve-direction", "spacing:uneven", "history:curve-sheared-or-stretched-before-judging",
+    "edge:along-curve-direction", "spacing:uneven", "history:curve-sheared-or-stretched-before-judging", "history:caller-edited-the-array-the-curve-was-built-from",
 ]
 MIN_KEYS = 150
 RULE = (
@@ -119,6 +119,8 @@ def gen_case(ctx):
     spec = xr.gen_curve(rng)
     kind = spec["kind"]
     case = {"mode": mode, "curve": spec}
+    if kind in xr.POINT_KINDS and rng.random() < 0.2:
+        case["caller_array"] = True
     if kind in xr.POINT_KINDS and mode == "curve" and rng.random() < 0.25:
         pre = []
         for _ in range(rng.randint(1, 2)):
@@ -238,7 +240,15 @@ def run_case(ctx, case):
 
     spec = case["curve"]
     kind = spec["kind"]
-    lib = xr.build_curve(spec, cb)
+    if kind in xr.POINT_KINDS and case.get("caller_array"):
+        # history: the curve is built from a float array the caller goes on using (rows of a bigger table, the output of
+        # another curve's discretize()); the caller then edits that array in place - the curve keeps ITS defining points
+        arr = np.array(spec["points"], dtype=float)
+        lib = xr.build_curve(dict(spec, points=arr), cb)
+        arr += 7.7 * (1.0 + float(np.max(np.abs(arr))))
+        ctx.count("history:caller-edited-the-array-the-curve-was-built-from")
+    else:
+        lib = xr.build_curve(spec, cb)
     pre = case.get("pre") if kind in xr.POINT_KINDS else None
     if pre:
         # history: the long-lived curve is queried once, then sheared / stretched through its own methods; every clause
